@@ -121,10 +121,20 @@ def run_case(case: Dict[str, Any]) -> CaseResult:
             if missing:
                 res.viol("debug-did-not-run", f"debug nodes {sorted(missing)} did not run in a whole-DAG call" + tag)
         if flag:
+            # "all inputs available": every dependency of a pulled-in debug node ran in this execution (setup nodes
+            # may have been computed before), and it received exactly the values those executions produced.  (The
+            # values themselves may differ from a whole-DAG run when the user's root selection starved a parent.)
+            ran = set(entered)
+            Rr = prog.Ref(selected=ran, run_debug=True)
+            prog.ref_run(P, [], Rr)
+            ran_obs = {k: (a, kw) for (_f, k, a, kw) in Rr.obs}
             for d in dbg_entered - closure:
                 pulled_any = True
-                if obs[d] != full_obs.get(M.key[d]):
-                    res.viol("debug-missing-input", f"pulled-in debug node {d} received {obs[d]}, with all inputs available it receives {full_obs.get(M.key[d])}" + tag)
+                missing = [x for x in M.deps[d] if x not in ran]
+                if missing:
+                    res.viol("debug-missing-input", f"pulled-in debug node {d} ran although its inputs {missing} were not executed" + tag)
+                elif obs[d] != ran_obs.get(M.key[d]):
+                    res.viol("debug-wrong-input", f"pulled-in debug node {d} received {obs[d]}, its executed inputs give {ran_obs.get(M.key[d])}" + tag)
         # non-debug sites: exactly the closure runs, with the reference's values
         want = {s for s in closure if s not in debug}
         got = {s for s in entered if s not in debug}
